@@ -142,7 +142,7 @@ class SymNP:
         if isinstance(shape, (tuple, list)):
             shape = tuple(int(s) if isinstance(s, Sym) else s for s in shape)
         k = _kind(dtype)
-        if not self._sfa and not is_symbolic(value):
+        if (not self._sfa and not is_symbolic(value)) or isinstance(value, (str, bytes)) or value is None:
             return _np.full(shape, value, dtype=dtype)
         if k in ("b",) and not is_symbolic(value):
             out = _np.full(shape, value, dtype=dtype)
